@@ -608,10 +608,9 @@ func runC08(run *core.Run) {
 	replayCorpusCrashers(run)
 	for _, s := range []string{"dsl", "modfiles", "yaml", "json", "models", "strings"} {
 		runTotality(run, s, sizes[s], run.N(2500, 20000))
-		for i := 0; i < sizes[s]; i += sizes[s]/200 + 1 {
-			run.NonTrivial(fmt.Sprintf("%s/%d", s, i)) // inputs are distinct by (stream, index); counted sparsely
+		for i := 0; i < sizes[s]; i++ {
+			run.NonTrivial(fmt.Sprintf("%s/%d", s, i)) // inputs are distinct by (stream, index)
 		}
-		run.Count("distinct_inputs_by_construction:"+s, int64(sizes[s]))
 	}
 	for _, s := range []string{"dsl", "models", "yaml"} {
 		in := makeC08Input(run.Seed, s, 1)
